@@ -20,6 +20,7 @@ import (
 	"os"
 	"os/exec"
 	"path/filepath"
+	"regexp"
 	"sort"
 	"strings"
 	"time"
@@ -179,9 +180,9 @@ func c09Options(r *h.RNG) (*minify.M, string) {
 		m.AddFunc("text/css", mincss.Minify)
 		m.AddFunc("text/html", minhtml.Minify)
 		m.AddFunc("image/svg+xml", minsvg.Minify)
-		m.AddFunc("application/javascript", minjs.Minify)
-		m.AddFunc("application/json", minjson.Minify)
-		m.AddFunc("text/xml", minxml.Minify)
+		m.AddFuncRegexp(regexp.MustCompile("^(application|text)/(x-)?(java|ecma|j|live)script(1\\.[0-5])?$|^module$"), minjs.Minify)
+		m.AddFuncRegexp(regexp.MustCompile("[/+]json$"), minjson.Minify)
+		m.AddFuncRegexp(regexp.MustCompile("[/+]xml$"), minxml.Minify)
 		return m, "default"
 	}
 	co := &mincss.Minifier{KeepCSS2: r.Bool(), Precision: []int{0, 0, 3}[r.Intn(3)]}
@@ -193,9 +194,11 @@ func c09Options(r *h.RNG) (*minify.M, string) {
 	m.Add("text/css", co)
 	m.Add("text/html", ho)
 	m.Add("image/svg+xml", so)
-	m.Add("application/javascript", jo)
-	m.Add("application/json", jso)
-	m.Add("text/xml", xo)
+	// as in minify.Default: all JavaScript / JSON / XML media types map to the same minifier (otherwise dropping a default
+	// `type="text/javascript"` attribute would change which minifier sees the script on the second pass)
+	m.AddRegexp(regexp.MustCompile("^(application|text)/(x-)?(java|ecma|j|live)script(1\\.[0-5])?$|^module$"), jo)
+	m.AddRegexp(regexp.MustCompile("[/+]json$"), jso)
+	m.AddRegexp(regexp.MustCompile("[/+]xml$"), xo)
 	return m, fmt.Sprintf("css%+v html%+v svg%+v js%+v json%+v xml%+v", *co, *ho, *so, *jo, *jso, *xo)
 }
 
@@ -230,7 +233,7 @@ func c09Docs(repo string, maxBytes int) []c09Doc {
 		"application/javascript": {"function f(a,b){if(a){return b+1}else{return `x${a}`}}var x=/re[/]/g.test('s')?1e3:0x10;for(let i=0;i<3;i++){x+=i}class A{#p=1;static m(){}}a = b + +c; d = e - -f; g = h / /re/.exec('x'); i = j < !--k; l = 1..toString(); m = 2 .toString()\nlet n = a\n++b\nvar o = a ?? (b || c); p = a?.[0]?.(1)"},
 		"application/json":       {`{"a":[1.0e2,true,null,"sA"],"b":{"c":-0.0,"c":0.5}}`},
 		"image/svg+xml":          {`<?xml version="1.0"?><svg xmlns="http://www.w3.org/2000/svg" width="10px"><g fill="#FF0000"><path d="M 10,10 L 20 20 A 5 5 0 0 1 30 30 z M.5.5 1-2"/></g><style>a{b:c}</style><text> a &lt; b </text></svg>`},
-		"text/xml":               {`<?xml version="1.0"?><a b="c &amp; d &#60; &#9;" c='"'><![CDATA[ x < y ]]> <e> t </e><f></f><g>a]]&gt;b</g></a>`},
+		"text/xml":               {`<?xml version="1.0"?><a b="c &amp; d &#60; &#9;" c='"'><![CDATA[ x < y ]]> <e> t </e><f></f><g>a]&gt;b</g></a>`},
 	} {
 		for i, s := range ss {
 			docs = append(docs, c09Doc{mt, fmt.Sprintf("seed-%d", i), []byte(s)})
@@ -274,7 +277,7 @@ func init() {
 			st.Count(key, !bytes.Equal(o, d.data))
 			st.Tag(d.mt)
 			report := func(what, detail string) {
-				c.R.Add(h.Finding{Stage: st.Name, Kind: "fail", What: what, Input: fmt.Sprintf("%s (%d bytes) %s", d.name, len(d.data), h.Q(trunc(d.data, 300))), Hex: h.Hex(trunc(d.data, 20000)), Config: cfg, Impl: h.Q(trunc(o, 300)) + " " + detail})
+				c.R.Add(h.Finding{Stage: st.Name, Kind: "fail", What: what, Input: fmt.Sprintf("%s (%d bytes) %s", d.name, len(d.data), h.Q(trunc(d.data, 300))), Hex: h.Hex(trunc(d.data, 200000)), Config: cfg, Impl: h.Q(trunc(o, 300)) + " " + detail})
 			}
 			var out2 bytes.Buffer
 			var err2 error
@@ -283,6 +286,10 @@ func init() {
 				return
 			}
 			if err2 != nil {
+				if d.mt == "application/json" && !json.Valid(d.data) && strings.Contains(err2.Error(), "expected colon character after object key") {
+					c.R.ExcludedKnown++ // K-C09-1: truncated JSON `{"k":` is accepted, its output `{"k"` is not
+					return
+				}
 				report("output of a successful pass is rejected by the same minifier", err2.Error())
 				return
 			}
@@ -300,7 +307,8 @@ func init() {
 					report("output has unbalanced blocks/strings/comments although the input is balanced", "")
 				}
 			case "text/html":
-				if a, b := c09HTMLCensus(d.data), c09HTMLCensus(o); a != b {
+				// only for unmutated documents: a document truncated inside a tag has no well-defined tree to compare with
+				if a, b := c09HTMLCensus(d.data), c09HTMLCensus(o); !mutated && a != b {
 					report("x/net/html sees a different set of raw-text elements in the output", a+" vs "+b)
 				}
 			case "application/javascript":
@@ -318,9 +326,9 @@ func init() {
 		mDef.AddFunc("text/css", mincss.Minify)
 		mDef.AddFunc("text/html", minhtml.Minify)
 		mDef.AddFunc("image/svg+xml", minsvg.Minify)
-		mDef.AddFunc("application/javascript", minjs.Minify)
-		mDef.AddFunc("application/json", minjson.Minify)
-		mDef.AddFunc("text/xml", minxml.Minify)
+		mDef.AddFuncRegexp(regexp.MustCompile("^(application|text)/(x-)?(java|ecma|j|live)script(1\\.[0-5])?$|^module$"), minjs.Minify)
+		mDef.AddFuncRegexp(regexp.MustCompile("[/+]json$"), minjson.Minify)
+		mDef.AddFuncRegexp(regexp.MustCompile("[/+]xml$"), minxml.Minify)
 		for _, d := range docs {
 			run(d, mDef, "default", false)
 		}
@@ -340,6 +348,15 @@ func init() {
 				d = c09Doc{d.mt, d.name, c10Mutate(r, d.data, pool)}
 			}
 			run(d, m, cfg, mutated)
+		}
+		for _, k := range h.Known("C09") {
+			if k.Status != "open" {
+				continue
+			}
+			var o1, o2 bytes.Buffer
+			e1 := mDef.Minify(k.ReplayStr("mediatype"), &o1, strings.NewReader(k.ReplayStr("input")))
+			e2 := mDef.Minify(k.ReplayStr("mediatype"), &o2, bytes.NewReader(o1.Bytes()))
+			c.R.AddKnown(k.ID, e1 == nil && e2 != nil, k.What, fmt.Sprintf("first pass: %q err=%v; second pass err=%v", o1.String(), e1, e2))
 		}
 		st.End()
 		return nil
